@@ -152,6 +152,12 @@ impl Adapter<Pop> for PopAd {
         }
         v
     }
+    fn same_type_instance(&self, other: &Inst) -> Option<Pop> {
+        if other.class != "poplar1" {
+            return None;
+        }
+        Some(Poplar1::new_turboshake128(other.len as usize))
+    }
     fn wrong_len_output(&self, bytes: &[u8], ap: &ApSpec, other_level: bool) -> Option<Poplar1FieldVec> {
         poplar_field_vec(self.is_leaf(ap) != other_level, bytes)
     }
